@@ -22,7 +22,7 @@ import (
 	"github.com/henrylee2cn/erpc/v6/utils"
 )
 
-var mode = flag.String("mode", "raw", "raw|json|pb|http")
+var mode = flag.String("mode", "raw", "raw|json|pb|http|replies")
 
 type bufRW struct{ bytes.Buffer }
 
@@ -189,6 +189,10 @@ func genStream(r *rand.Rand, pf erpc.ProtoFunc, callName, pushName string, lim u
 
 func main() {
 	cfg := ParseFlags()
+	if *mode == "replies" {
+		runReplies(cfg)
+		return
+	}
 	r := cfg.Rng
 	Quiet()
 	RegTestFilters()
